@@ -282,7 +282,20 @@ def serialize(ast, var_index):
             raise Unmodelled("non-interval operand of udiv")
         return t
 
+    seen = {}
+
     def go(n):
+        # the model identifies the fresh name created at a node with the node's TERM: two different ASTs must not serialise to
+        # one term (n-ary operators are written as left folds, so __add__(__add__(a, b), c) and __add__(a, b, c) would; claripy
+        # flattens the former at construction).  The intermediate results of a fold have names nothing else sees.
+        toks = go1(n)
+        if n.op not in _BOOL_OPS and n.op not in ("And", "Or", "Not", "BoolV"):
+            key = " ".join(toks)
+            if seen.setdefault(key, n.hash()) != n.hash():
+                raise Unmodelled("two ASTs with one serialisation")
+        return toks
+
+    def go1(n):
         op = n.op
         if op == "BVS":
             if n.args[0] not in var_index:
